@@ -160,6 +160,15 @@ def refs_child(job):
         ("'AL' (string-valued alias by name)", lambda: a.um("AL", {"k": wire}), {"k": base}),
         ("'vm_c11_a.IntList' (module-level generic alias by name)", lambda: b.um("vm_c11_a.IntList", ["1", 2]), [1, 2]),
         ("marshal with t='Item'", lambda: a.mar("Item", base), typelib.marshal(base, t=a.Item)),
+        # a module-qualified text may spell a qualified type (Python permits ClassVar / Final at the root): `typing.ClassVar[int]` is
+        # resolved in the module it names.  (Texts over names of the CALLER's module are not names; outside the assumption above.)
+        ("'typing.ClassVar[int]'", lambda: a.um("typing.ClassVar[int]", "5"), 5),
+        ("'typing.Final[int]'", lambda: a.um("typing.Final[int]", "5"), 5),
+        ("'typing.ClassVar[typing.List[int]]' from a nested call", lambda: a.um2("typing.ClassVar[typing.List[int]]", ["1", 2]), [1, 2]),
+        ("'typing.ClassVar[typing.Dict[str, int]]' from another module", lambda: b.um("typing.ClassVar[typing.Dict[str, int]]", {"k": "1"}), {"k": 1}),
+        ("'typing.Final[typing.Optional[int]]'", lambda: b.um3("typing.Final[typing.Optional[int]]", "7"), 7),
+        ("'typing.ClassVar[typing.Optional[int]]'", lambda: a.um("typing.ClassVar[typing.Optional[int]]", None), None),
+        ("marshal with t='typing.ClassVar[typing.List[int]]'", lambda: a.mar("typing.ClassVar[typing.List[int]]", (1, 2)), [1, 2]),
     ]
     for label, fn, exp in cases:
         try:
